@@ -174,15 +174,17 @@ std::string render(const std::vector<Seen>& v) {
     return os.str();
 }
 
-OfflinePacketFilter make_offline_filter(const Link& l, const std::string& f) {
+// heap-allocated on purpose: ASan fills fresh heap memory with a pattern, so a member the constructor forgets to
+// initialise holds garbage deterministically (on the stack it is usually zero by luck)
+OfflinePacketFilter* make_offline_filter(const Link& l, const std::string& f) {
     switch (l.dlt) {
-        case DLT_EN10MB: return OfflinePacketFilter(f, DataLinkType<EthernetII>());
-        case DLT_IEEE802_11: return OfflinePacketFilter(f, DataLinkType<Dot11>());
-        case DLT_IEEE802_11_RADIO: return OfflinePacketFilter(f, DataLinkType<RadioTap>());
-        case DLT_NULL: return OfflinePacketFilter(f, DataLinkType<Loopback>());
-        case DLT_LINUX_SLL: return OfflinePacketFilter(f, DataLinkType<SLL>());
-        case DLT_PPI: return OfflinePacketFilter(f, DataLinkType<PPI>());
-        default: return OfflinePacketFilter(f, DataLinkType<IP>());
+        case DLT_EN10MB: return new OfflinePacketFilter(f, DataLinkType<EthernetII>());
+        case DLT_IEEE802_11: return new OfflinePacketFilter(f, DataLinkType<Dot11>());
+        case DLT_IEEE802_11_RADIO: return new OfflinePacketFilter(f, DataLinkType<RadioTap>());
+        case DLT_NULL: return new OfflinePacketFilter(f, DataLinkType<Loopback>());
+        case DLT_LINUX_SLL: return new OfflinePacketFilter(f, DataLinkType<SLL>());
+        case DLT_PPI: return new OfflinePacketFilter(f, DataLinkType<PPI>());
+        default: return new OfflinePacketFilter(f, DataLinkType<IP>());
     }
 }
 
@@ -405,7 +407,8 @@ void prop(Src& s, Ctx& ctx) {
     // OfflinePacketFilter on parsed packets: must agree with libpcap on the packet's own serialisation
     if (mode == 2) {
         try {
-            OfflinePacketFilter opf = make_offline_filter(link, filter);
+            std::unique_ptr<OfflinePacketFilter> opf_holder(make_offline_filter(link, filter));
+            OfflinePacketFilter& opf = *opf_holder;
             VCHECK(ctx, bpf_dead->ok, tag + ":offline-filter-accepts-invalid-filter", desc);
             for (const Frame& f : frames) {
                 if (!f.parses) continue;
